@@ -96,6 +96,17 @@ def oracle(ctx, seeds=None):
             res.fail('order/%s%s' % (name, ':' + lim if lim else ''), "observed order %.2f < design order %d (L1 errors %r, %s, a=%r k=%d)" % (obs, expected, errs, integ, a, k), rp)
         if name not in ('extrapol3', 'muscl') and name != 'extrapol1' and obs > expected + 0.8:
             res.count('super-convergent-' + name)
+    # ---- third order of extrapol3 for BOTH signs of the speed (left and right face states carry the same kappa weights mirrored)
+    for a in (1.0, -1.0):
+        phase = float(rng.uniform(0, 2 * np.pi))
+        ok, errs = impl.guarded(lambda: [conv_error(impl.xnum.extrapol3(), 'rk4', n, a, 1, phase, 0.1) for n in (24, 48, 96)])
+        res.case(('order-extrapol3', a))
+        rp = dict(kind='order', scheme='extrapol3', limiter='', integrator='rk4', a=a, k=1, phase=phase, x0=0.0, amplitude=1.0)
+        if not ok:
+            res.fail('order/extrapol3:raised', errs, rp); continue
+        obs = float(np.log2(errs[1] / errs[2])) if errs[2] > 0 and all(np.isfinite(errs)) else -9.9
+        if obs < 3 - 0.3:
+            res.fail('order/extrapol3', "observed order %.2f < design order 3 (L1 errors %r, rk4, a=%r k=1)" % (obs, errs, a), rp)
     # ---- every limiter at small and large amplitudes (scale invariance of linear convection: absolute thresholds in a limiter show here)
     for lim, amp in [('vanalbada', 1e-4), ('vanleer', 1e-4), ('vanalbada', 1e-7), ('vanleer', 1e-7), ('minmod', 1e-7), ('superbee', 1e5)]:
         a = float(rng.choice([1.0, -1.0])); phase = float(rng.uniform(0, 2 * np.pi))
